@@ -205,7 +205,7 @@ func cmdCheck(args []string) {
 	exit := 0
 	var lines []string
 	nViol, nKnown := 0, 0
-	paths, obl, dis, commits, cuts := 0, 0, 0, 0, 0
+	paths, obl, dis, commits, cuts, decisions := 0, 0, 0, 0, 0, 0
 	funcs, sqls, stubs, bounds := map[string]bool{}, map[string]bool{}, map[string]bool{}, map[string]bool{}
 	var samples []interface{}
 	var reached []string
@@ -217,6 +217,7 @@ func cmdCheck(args []string) {
 		obl += r.Obligations
 		dis += r.Discharged
 		commits += r.Commits
+		decisions += r.Decisions
 		cuts += r.Cuts
 		for _, f := range r.Funcs {
 			funcs[f] = true
@@ -294,12 +295,14 @@ func cmdCheck(args []string) {
 	// evidence
 	cov := map[string]interface{}{
 		"states":                        paths,
-		"transitions":                   commits,
+		"transitions":                   commits + decisions,
+		"store_transactions_committed":  commits,
+		"symbolic_decisions":            decisions,
 		"traces_validated_against_impl": validated,
 		"translator_selftest":           "the repository's store suite (store/test/cases.go: concrete transactions with expected results) executed through the engine's encoding of the SQLite and the Postgres handlers; every result equals the expected one",
 		"evaluations":                   int(gStats.Queries),
 		"distinct_nontrivial":           obl,
-		"rule":                          "one evaluation = one SMT query (feasibility, assertion, invariant, witness); states = symbolic paths explored (each keeps all data symbolic); transitions = store transactions committed on those paths; distinct_nontrivial = assertion/invariant obligations (PC => cond) posed on feasible paths",
+		"rule":                          "one evaluation = one SMT query (feasibility, assertion, invariant, witness); states = symbolic paths explored (each keeps all data symbolic); transitions = store transactions committed on those paths + solver-decided branching decisions taken along them; distinct_nontrivial = assertion/invariant obligations (PC => cond) posed on feasible paths",
 		"obligations":                   obl,
 		"discharged":                    dis,
 		"unknown":                       len(inconclusive),
